@@ -26,22 +26,32 @@ _BAD = re.compile(r'<<"BADCLAUSE", (\d+), "(\w+)">>')
 _DONE = re.compile(r'<<"TRACE-CONSUMED", (\d+), (\d+)>>')
 
 
-def one_call(eng, conf, info, zm, vel_rev, seed, work, tag):
+def one_call(eng, conf, info, zm, vel_rev, seed, work, tag, multiframe=False):
     from infretis.classes.system import System
     exe = os.path.join(work, f"exe_{tag}")
     shutil.rmtree(exe, ignore_errors=True)
     os.makedirs(exe)
-    src = os.path.join(exe, "source." + conf.rsplit(".", 1)[1])
-    shutil.copyfile(conf, src)
+    idx = 0
+    frames = None
+    if multiframe:        # the shooting point is frame 2 of a three-frame trajectory file
+        src, frames = engines.make_multiframe(tag.split("_")[0], eng, conf, os.path.join(exe, "source_traj"))
+        idx = 2
+    else:
+        src = os.path.join(exe, "source." + conf.rsplit(".", 1)[1])
+        shutil.copyfile(conf, src)
     with open(src, "rb") as fh:
         before = fh.read()
     eng.exe_dir = exe
     eng.rgen = np.random.default_rng(seed)
     st0 = json.dumps(eng.rgen.bit_generator.state, default=str)
     s = System()
-    s.set_pos((src, 0))
+    s.set_pos((src, idx))
     s.vel_rev = vel_rev
-    x0, v0, b0, n0 = engines.read_conf(eng, src)
+    if multiframe:
+        _x, _v, _b, n0 = engines.read_conf(eng, conf)
+        x0, v0, b0 = frames[idx]
+    else:
+        x0, v0, b0, n0 = engines.read_conf(eng, src)
     mass = engines.masses_of(eng, info)
     with sysdrv.ForeignRandomness() as fr:
         dek, kin_new = eng.modify_velocities(s, {"zero_momentum": zm})
@@ -60,7 +70,7 @@ def one_call(eng, conf, info, zm, vel_rev, seed, work, tag):
     # same stream -> same velocities
     eng.rgen = np.random.default_rng(seed)
     s2 = System()
-    s2.set_pos((src, 0))
+    s2.set_pos((src, idx))
     s2.vel_rev = vel_rev
     eng.modify_velocities(s2, {"zero_momentum": zm})
     _x, v2, _b, _n = engines.read_conf(eng, s2.config[0])
@@ -149,7 +159,8 @@ def engine_job(args):
         mass = engines.masses_of(eng, info)
         for i, c in enumerate(calls):
             try:
-                ev = one_call(eng, conf, info, c["zero_momentum"], c["vel_rev"], seed + i, work, f"{name}_{i}")
+                ev = one_call(eng, conf, info, c["zero_momentum"], c["vel_rev"], seed + i, work, f"{name}_{i}", multiframe=bool(c.get("multiframe")))
+                ev["multiframe"] = bool(c.get("multiframe"))
                 ev["masses"] = "unequal" if hetero else "equal"
                 ev["request_ok"] = True
             except Exception as exc:  # noqa: BLE001
@@ -219,7 +230,7 @@ def collect(chk, tier, work, pid, clauses, extra_events=None):
     raw, _i, _e = tlc.read_dot(dot, parse=True)
     calls = {}
     for st in raw.values():
-        if st["done"] and not st["call"]["multiframe"]:
+        if st["done"]:
             calls.setdefault((st["call"]["engine"], st["call"]["masses"] == "unequal"), []).append(st["call"])
     jobs = [(name, het, sorted(cl, key=lambda c: (c["zero_momentum"], c["vel_rev"])), 400 if q else 4000, chk.seed * 17 + 3 + 7 * het)
             for (name, het), cl in sorted(calls.items())]
@@ -248,7 +259,7 @@ def collect(chk, tier, work, pid, clauses, extra_events=None):
     path = os.path.join(work, "vel.ndjson")
     with open(path, "w") as fh:
         for ev in events:
-            fh.write(json.dumps({k: v for k, v in ev.items() if k not in ("detail", "foreign_who", "engine", "masses")}) + "\n")
+            fh.write(json.dumps({k: v for k, v in ev.items() if k not in ("detail", "foreign_who", "engine", "masses", "multiframe")}) + "\n")
     tcfg = os.path.join(work, "TraceVelocity.cfg")
     with open(tcfg, "w") as fh:
         fh.write("SPECIFICATION TSpec\nINVARIANT Report\nCHECK_DEADLOCK FALSE\n")
@@ -266,13 +277,13 @@ def collect(chk, tier, work, pid, clauses, extra_events=None):
         if clause not in clauses:
             continue
         ev = events[idx]
-        chk.violation(f"clause:{clause};engine:{ev['engine']}" + (";unequal-masses" if ev.get("masses") == "unequal" and clause in ("V_ZeroMomentum", "V_Distribution") else "") + (";zero_momentum" if ev["zero_momentum"] and clause in ("V_KinNew", "V_Dek", "V_ZeroMomentum") else ""),
+        chk.violation(f"clause:{clause};engine:{ev['engine']}" + (";multiframe" if ev.get("multiframe") and clause in ("V_PositionsKept", "V_Dek", "V_KinNew") else "") + (";unequal-masses" if ev.get("masses") == "unequal" and clause in ("V_ZeroMomentum", "V_Distribution") else "") + (";zero_momentum" if ev["zero_momentum"] and clause in ("V_KinNew", "V_Dek", "V_ZeroMomentum") else ""),
                       f"modify_velocities of the {ev['engine']} engine violates {clause}: {json.dumps(ev.get('detail'))[:300]} {ev.get('foreign_who')}",
                       {"property": pid, "binding": "C", "spec": "TraceVelocity", "clause": clause, "observed": ev})
     chk.evaluated(len(events))
     chk.traces(len(events))
     for i, ev in enumerate(events):
-        chk.nontrivial((ev["engine"], ev.get("masses"), ev["zero_momentum"], ev["vel_rev"], ev["stat_checked"]))
+        chk.nontrivial((ev["engine"], ev.get("masses"), ev["zero_momentum"], ev["vel_rev"], ev["stat_checked"], ev.get("multiframe")))
     if events:
         chk.sample({k: v for k, v in events[0].items()})
     stats = [e for e in events if e["stat_checked"]]
